@@ -54,6 +54,9 @@ def jobs(ctx):
     out.append(Job(REL, PKG, HK, "VerifC03Expect", {"nconf": 1}, tag="expect kernel twin", twin=True))
     for k in (2, 3) if q else (2, 3, 4):
         out.append(Job(REL, PKG, HK, "VerifC03Empty", {"nr": k}, tag="computeEmpty nr=%d" % k, cost=200))
+    for shape, rcap in ((5, 2), (6, 3), (6, 2), (9, 3), (10, 4), (21, 3), (22, 4), (26, 4), (1, 1), (2, 0)) if q else ((5, 2), (6, 3), (6, 2), (9, 3), (10, 4), (21, 3), (22, 4), (26, 4), (26, 5), (42, 6), (42, 5), (27, 5), (1, 1), (2, 0)):
+        out.append(Job("util/sparse", "sparse", "c03_sparse.go", "VerifC03Union", {"shape": shape, "rcap": rcap}, tag="sparse.Union shape=%d rcap=%d" % (shape, rcap), cost=30))
+    out.append(Job("util/sparse", "sparse", "c03_sparse.go", "VerifC03Union", {"shape": 6, "rcap": 3}, tag="sparse.Union twin", twin=True))
     # grammars
     gs = [dict(g) for g in corpus.PLAIN + corpus.PREC if not g.get("expect_conflict") and not any(x.startswith("{") for _, r in g["rules"] for x in r)]
     items = []
